@@ -39,10 +39,17 @@ func sameFunc(f, target *ssa.Function) bool {
 
 // refsTo lists every production-scope use of target.
 func (p *Prog) refsTo(target *ssa.Function) []Ref {
-	return p.refsTo1(target, map[*ssa.Function]bool{})
+	return p.refsTo1(target, map[*ssa.Function]bool{}, true)
 }
 
-func (p *Prog) refsTo1(target *ssa.Function, visited map[*ssa.Function]bool) []Ref {
+// refsToInPlace is refsTo, except that a use inside an instantiation of a generic function stays
+// attributed to that instantiation (it has a body of its own, with its own lock regions) instead of
+// being passed on to the instantiation's users.
+func (p *Prog) refsToInPlace(target *ssa.Function) []Ref {
+	return p.refsTo1(target, map[*ssa.Function]bool{}, false)
+}
+
+func (p *Prog) refsTo1(target *ssa.Function, visited map[*ssa.Function]bool, throughInstances bool) []Ref {
 	var out []Ref
 	if visited[target] {
 		return nil
@@ -93,8 +100,8 @@ func (p *Prog) refsTo1(target *ssa.Function, visited map[*ssa.Function]bool) []R
 	// attributed to the users of the wrapper
 	var res []Ref
 	for _, r := range out {
-		if r.In.Synthetic != "" && r.In.Parent() == nil && r.In.Pkg == nil || isWrapper(r.In) {
-			res = append(res, p.refsTo1(r.In, visited)...)
+		if r.In.Synthetic != "" && r.In.Parent() == nil && r.In.Pkg == nil && (throughInstances || r.In.Origin() == nil) || isWrapper(r.In) {
+			res = append(res, p.refsTo1(r.In, visited, throughInstances)...)
 			continue
 		}
 		res = append(res, r)
@@ -585,7 +592,7 @@ func edgeBlocked(fl *Flow, b, s *ssa.BasicBlock, blocked func([]Fact) bool, dept
 		cond, truth = u.X, !truth
 	}
 	// the verdict of an error-returning helper: `helper(..) != nil` / `== nil`; truth then means "returned nil"
-	errVerdict := false
+	errVerdict, errIdx := false, 0
 	if bo, isBin := cond.(*ssa.BinOp); isBin && (bo.Op == token.NEQ || bo.Op == token.EQL) {
 		var other ssa.Value
 		if isNilConst(bo.Y) {
@@ -593,10 +600,19 @@ func edgeBlocked(fl *Flow, b, s *ssa.BasicBlock, blocked func([]Fact) bool, dept
 		} else if isNilConst(bo.X) {
 			other = bo.Y
 		}
-		if c2, isCall := other.(*ssa.Call); isCall && types.Identical(c2.Type(), types.Universe.Lookup("error").Type()) {
+		errT := types.Universe.Lookup("error").Type()
+		if c2, isCall := other.(*ssa.Call); isCall && types.Identical(c2.Type(), errT) {
 			cond, errVerdict = c2, true
 			if bo.Op == token.NEQ {
 				truth = !truth
+			}
+		} else if ex, isEx := other.(*ssa.Extract); isEx && types.Identical(ex.Type(), errT) {
+			// the error of a (value, error) helper
+			if c2, isCall := ex.Tuple.(*ssa.Call); isCall && ex.Index == c2.Type().(*types.Tuple).Len()-1 {
+				cond, errVerdict, errIdx = c2, true, ex.Index
+				if bo.Op == token.NEQ {
+					truth = !truth
+				}
 			}
 		}
 	}
@@ -609,7 +625,11 @@ func edgeBlocked(fl *Flow, b, s *ssa.BasicBlock, blocked func([]Fact) bool, dept
 		return false
 	}
 	res := cal.Signature.Results()
-	if res.Len() != 1 || (!errVerdict && !types.Identical(res.At(0).Type(), types.Typ[types.Bool])) {
+	if errVerdict {
+		if errIdx != res.Len()-1 {
+			return false
+		}
+	} else if res.Len() != 1 || !types.Identical(res.At(0).Type(), types.Typ[types.Bool]) {
 		return false
 	}
 	cfl := NewFlow(fl.P, cal)
@@ -650,7 +670,7 @@ func edgeBlocked(fl *Flow, b, s *ssa.BasicBlock, blocked func([]Fact) bool, dept
 	var open func(x *ssa.BasicBlock) bool
 	open = func(x *ssa.BasicBlock) bool {
 		if r, ok := x.Instrs[len(x.Instrs)-1].(*ssa.Return); ok {
-			v := retValue(r, 0)
+			v := retValue(r, errIdx)
 			if errVerdict {
 				switch {
 				case isNilConst(v):
